@@ -86,6 +86,13 @@ def hash_definition(func: Callable) -> str:
         source = None
     if source is not None:
         h = hashlib.sha256(source.encode())
+        # Several functions can share one source text (lambdas written on one
+        # line, functions made by one factory): their bytecode tells the former
+        # apart, what they captured the latter.
+        code = getattr(func, "__code__", None)
+        if code is not None:
+            h.update(code.co_code)
+            h.update(repr(tuple(c if not hasattr(c, "co_name") else c.co_name for c in code.co_consts)).encode())
         # Functions made by one factory share their source text: what tells them
         # apart is what they captured (and their defaults), as in the bytecode
         # fallback below. Plain module-level functions hash as before.
